@@ -498,6 +498,7 @@ pub fn build_and_run(case: &Case) -> Outcome {
         machines.push(Machine::new().with(Pci::new([net.clone()])).with(RawInjector { frames: case.inject.clone() }).arc());
     }
     let horizon = Duration::from_secs(if case.workers == 0 { 120 } else { 20 });
+    let _release = ReleaseOnDrop(machines.clone());
     let (status, panics, watchdog) = if case.workers == 0 {
         let (st, panics) = run_virtual(async { run_internet_with_timeout(&machines, horizon).await });
         (st.map(|s| format!("{s:?}")).unwrap_or("panicked".into()), panics, false)
